@@ -244,15 +244,245 @@ func postAdds(fe string) []Op {
 // optClass groups compile options that give the same run-time semantics.
 func optClass(opt string) string {
 	k := parseK(opt)
+	intr := ""
+	if len(k.before) > 0 {
+		intr += "|before=" + strings.Join(sortedCopy(k.before), ",")
+	}
+	if len(k.after) > 0 {
+		intr += "|after=" + strings.Join(sortedCopy(k.after), ",")
+	}
 	switch {
 	case k.mode == "all" && k.max:
-		return "all+max"
+		return "all+max" + intr
 	case k.mode == "all":
-		return "all"
+		return "all" + intr
 	case k.max:
-		return "pregel-max"
+		return "pregel-max" + intr
 	}
-	return "pregel"
+	return "pregel" + intr
+}
+
+// usesIface: the sequence (or a graph nested in it) declares a node or a branch condition over an
+// interface type.
+func usesIface(ops []Op) bool {
+	for _, o := range ops {
+		switch o.K {
+		case "L", "CL", "WN":
+			if in, out := lambdaTypes(o.Typ); o.Typ != "" && o.Typ != "P" && o.Typ != "G" && (isIfaceT(in) || isIfaceT(out)) {
+				return true
+			}
+		case "B", "WB", "CBr":
+			if o.Cond == "a" {
+				return true
+			}
+		}
+		if o.Sub != nil && usesIface(o.Sub.Ops) {
+			return true
+		}
+	}
+	return false
+}
+
+func hasPassthrough(ops []Op) bool {
+	for _, o := range ops {
+		if o.K == "P" || o.K == "CP" || (o.K == "WN" && o.Typ == "P") {
+			return true
+		}
+		if o.Sub != nil && hasPassthrough(o.Sub.Ops) {
+			return true
+		}
+	}
+	return false
+}
+
+func zeroTargetBranch(ops []Op) bool {
+	for _, o := range ops {
+		if (o.K == "B" || o.K == "WB") && len(o.Ends) == 0 {
+			return true
+		}
+		if o.Sub != nil && zeroTargetBranch(o.Sub.Ops) {
+			return true
+		}
+	}
+	return false
+}
+
+// nondetFeature: a feature of the input that goes into the signature of a non-deterministic outcome
+// (what the sequence contains, not a proven cause).
+func nondetFeature(ops []Op) string {
+	switch {
+	case mappedAtPassthrough(ops):
+		return "/field-mapped-input-at-passthrough"
+	case zeroTargetBranch(ops):
+		return "/zero-target-branch"
+	case usesIface(ops) && hasPassthrough(ops):
+		return "/passthrough-next-to-interface-typed-node"
+	}
+	return ""
+}
+
+// hasPre: a graph that is compiled standalone before it is added as a node.
+func hasPre(ops []Op) bool {
+	for _, o := range ops {
+		if o.Sub != nil && (o.Sub.Pre || hasPre(o.Sub.Ops)) {
+			return true
+		}
+	}
+	return false
+}
+
+func clearPre(ops []Op) []Op {
+	out := make([]Op, len(ops))
+	for i, o := range ops {
+		if o.Sub != nil {
+			sub := *o.Sub
+			sub.Pre = false
+			sub.Ops = clearPre(sub.Ops)
+			o.Sub = &sub
+		}
+		out[i] = o
+	}
+	return out
+}
+
+// compileStageRule: the reference attributes the failure of a Compile to the compile stage proper (an
+// incomplete graph, a bad option set, a loop, an ill-formed nested graph) and not to a declaration that
+// was replayed and refused (a Workflow replays its declarations at Compile; such a refusal sticks).
+func compileStageRule(rule string) bool {
+	for _, p := range []string{"no-entry-edge", "no-exit-edge", "uninferred-passthrough", "cycle-in-all-predecessor-mode", "max-steps-in-all-predecessor-mode",
+		"trigger-mode-on-chain-or-workflow", "unknown-interrupt-node", "nested-"} {
+		if strings.HasPrefix(rule, p) {
+			return true
+		}
+	}
+	return false
+}
+
+// checkCompileHistory: Compile does not change what was built. (1) A Compile that failed for a reason
+// of the compile stage must be without influence on a later Compile: the same calls without the failed
+// Compile calls, on fresh objects, must give the same outcome and, if that is a runnable, the same
+// behaviour (branch conditions are part of the trace: a branch that is registered twice evaluates its
+// condition twice per run). (2) A graph that was compiled standalone before it was added as a node must
+// compile, as a node, like one that was not. Reference-free; not applied to chains (the first Compile
+// of a chain connects END, documented behaviour the reference mirrors) and to sequences with interface
+// types (there the order in which a Workflow replays its declarations - all at once, or in two portions
+// around a failed Compile - legitimately decides the type of a pass-through node).
+func (c *checker) checkCompileHistory(s *Seq, ops []Op, first *attempt, preds []pred, disagreeAt int, text func(int) string) {
+	if s.FE == "chain" || usesIface(ops) {
+		return
+	}
+	np := len(s.Prelude)
+	// the Compile calls to look at: the first successful one with a history, and the last one with a history
+	var cand []int
+	history := func(i int) (failed []int, pre, ok bool) {
+		for j := 0; j < i; j++ {
+			if ops[j].K == "K" && first.vec[j] == 'e' {
+				if !compileStageRule(preds[j].rule) {
+					return nil, false, false
+				}
+				failed = append(failed, j)
+			}
+		}
+		pre = hasPre(ops[:i+1])
+		return failed, pre, len(failed) > 0 || pre
+	}
+	firstOK, lastK := -1, -1
+	for i, op := range ops {
+		// (the reference and eino agree on every call before this Compile)
+		if op.K != "K" || i >= len(first.vec) || i > disagreeAt || first.vec[i] == 'p' {
+			continue
+		}
+		if _, _, ok := history(i); !ok {
+			continue
+		}
+		if first.vec[i] == 'o' && firstOK < 0 {
+			firstOK = i
+		}
+		lastK = i
+	}
+	if firstOK >= 0 {
+		cand = append(cand, firstOK)
+	}
+	if lastK >= 0 && lastK != firstOK {
+		cand = append(cand, lastK)
+	}
+	build := func(calls []Op) (instance, byte, bool) {
+		inst := newInstance(s.FE, s.State)
+		var last byte
+		for _, o := range calls {
+			res := inst.apply(o)
+			if res.Panic != nil {
+				return nil, 'p', false
+			}
+			last = res.class()
+		}
+		return inst, last, true
+	}
+	for _, i := range cand {
+		failed, pre, _ := history(i)
+		orig := ops[:i+1]
+		type variant struct {
+			calls []Op
+			class string
+			what  string
+		}
+		var vs []variant
+		if len(failed) > 0 {
+			skip := map[int]bool{}
+			for _, j := range failed {
+				skip[j] = true
+			}
+			var calls []Op
+			for j, o := range orig {
+				if !skip[j] {
+					calls = append(calls, o)
+				}
+			}
+			vs = append(vs, variant{calls, "after-failed-compile", "the same calls without the Compile calls that failed"})
+		}
+		if pre {
+			vs = append(vs, variant{clearPre(orig), "nested-graph-compiled-standalone-first", "the same calls with nested graphs that were not compiled standalone before they were added"})
+		}
+		for _, v := range vs {
+			c.rep.Count("compile_history_comparisons", 1)
+			c.rep.Count("compile_history_comparisons/"+v.class, 1)
+			c.rep.AddEvaluations(1)
+			alt, altCls, ok := build(v.calls)
+			if !ok {
+				c.rep.Count("compile_history_alternative_panicked_skipped", 1)
+				continue
+			}
+			w := witness{Seq: s, Position: i - np, Call: ops[i].String(), Note: v.what + ": " + opsText(v.calls)}
+			if altCls != first.vec[i] {
+				c.rep.Violation("C20/compile-not-repeatable/"+s.FE+"/"+v.class+"/compile-outcome",
+					fmt.Sprintf("the outcome of Compile depends on an earlier Compile of the same objects: %s here, %s for %s\n%s\nalternative: %s",
+						classText(first.vec[i]), classText(altCls), v.what, text(i), opsText(v.calls)), w)
+				continue
+			}
+			if altCls != 'o' || preds[i].rule != "" {
+				continue
+			}
+			// both compiled (and the reference finds the graph well-formed, so it can be run): same behaviour?
+			origInst, cls, ok := build(orig)
+			if !ok || cls != 'o' {
+				continue
+			}
+			control := func() runFn {
+				inst, cls, ok := build(orig)
+				if !ok || cls != 'o' {
+					return nil
+				}
+				return inst.last()
+			}
+			im := newImmut(origInst.last(), control, c)
+			c.rep.Count("compile_history_runnables_compared", 1)
+			if d, why := im.differs(alt.last(), c); d {
+				c.rep.Violation("C20/compile-not-repeatable/"+s.FE+"/"+v.class+"/runnable",
+					fmt.Sprintf("the runnable a Compile returns depends on an earlier Compile of the same objects (\"first runnable\" = this sequence, \"re-compiled\" = %s): %s\n%s\nalternative: %s",
+						v.what, why, text(i), opsText(v.calls)), w)
+			}
+		}
+	}
 }
 
 // keyedPassthroughs: the keys of the passthrough nodes declared with an input or output key (any: also
@@ -423,6 +653,7 @@ func (c *checker) checkSeq(s *Seq) {
 	}
 	var differs *recompiled
 	agreeSoFar := true
+	onlyCompiles, recompileFailedAt := true, -1
 	type stray struct {
 		at  int
 		res callRes
@@ -475,6 +706,16 @@ func (c *checker) checkSeq(s *Seq) {
 				continue
 			}
 			rep.Count("calls_after_first_compile", 1)
+			// Compile once more with the very same options, nothing but Compile calls in between: the
+			// builder is unchanged, the outcome must be the same
+			if op.K != "K" {
+				onlyCompiles = false
+			} else if onlyCompiles && op.Opt == ext[imAt].Opt {
+				rep.Count("recompiled_unchanged_builder_same_options", 1)
+				if res.class() == 'e' && recompileFailedAt < 0 {
+					recompileFailedAt = i
+				}
+			}
 			// the first runnable is re-run after every later call of the sequence itself, after every
 			// later Compile, and after the last call of the appended group of Add* calls
 			look := i < len(ops) || op.K == "K" || ext[i+1].K == "K"
@@ -503,10 +744,7 @@ func (c *checker) checkSeq(s *Seq) {
 		}
 		n := comparablePrefix(at.vec, first.vec, len(ops))
 		if acceptReject(at.vec[:n]) != acceptReject(first.vec[:n]) {
-			sig := "C20/nondeterministic-outcome/" + s.FE
-			if mappedAtPassthrough(ops) {
-				sig += "/field-mapped-input-at-passthrough"
-			}
+			sig := "C20/nondeterministic-outcome/" + s.FE + nondetFeature(ops)
 			rep.Violation(sig,
 				fmt.Sprintf("the same construction sequence gave different accept/reject vectors on two attempts: %s vs %s (o=accepted e=error p=panic n=no result)\ncalls: %s",
 					first.vec[:n], at.vec[:n], s.Text),
@@ -535,6 +773,7 @@ func (c *checker) checkSeq(s *Seq) {
 
 	// ---- reference vs. observed (first disagreement only: afterwards the two states differ)
 	agree := true
+	disagreeAt := len(ext)
 	var stickyErr error
 	stickyAt := -1
 	for i, op := range ext {
@@ -573,6 +812,7 @@ func (c *checker) checkSeq(s *Seq) {
 			agree = false
 		}
 		if !agree {
+			disagreeAt = i
 			break
 		}
 		if p.na || cls != 'e' {
@@ -623,6 +863,16 @@ func (c *checker) checkSeq(s *Seq) {
 	if agree {
 		rep.Count("sequences_agreeing_with_reference", 1)
 	}
+
+	// ---- Compile does not change what was built (reference-free)
+	if recompileFailedAt >= 0 {
+		i := recompileFailedAt
+		rep.Violation("C20/compile-not-repeatable/"+s.FE+"/second-compile-of-unchanged-builder-fails",
+			fmt.Sprintf("Compile succeeded (call #%d), nothing but Compile calls followed, and Compile with the very same options then returned an error: %s\n%s",
+				imAt-np, firstLine(first.res[i].Err.Error()), text(i)),
+			witness{Seq: s, Position: i - np, Call: ext[i].String(), Observed: classText('e'), Vector: string(first.vec)})
+	}
+	c.checkCompileHistory(s, ops, first, preds, disagreeAt, text)
 
 	// ---- immutability after a successful Compile (reference-free)
 	if im != nil {
@@ -755,20 +1005,24 @@ func TestCheck(t *testing.T) {
 	cfg := mon.Load("C20")
 	// millions of tiny short-lived builder objects, a few MB live: collect less often
 	debug.SetGCPercent(1600)
-	// of every 10 sampled cases: 3 random call sequences, 1 random sequence of late operations, 6 structures
-	nRandom := cfg.Pick(6000, 60000)
+	// of every 14 sampled cases: 3 random call sequences, 1 random sequence of late operations, 6 structures,
+	// 2 pass-through nodes between concrete and interface-typed neighbours, 1 waiting edges, 1 Compile again
+	nRandom := cfg.Pick(8400, 84000)
 
 	var famDesc []string
 	for _, f := range families {
 		famDesc = append(famDesc, fmt.Sprintf("%s(%d calls, length ≤%d)", f.name, len(f.alpha), f.maxLen(cfg.Thorough())))
 	}
-	rule := fmt.Sprintf("A case is one construction sequence (Graph, Chain or Workflow front end) executed %d times on fresh eino objects (30 times: the Workflow families / base programs with field-mapped passthrough nodes and every sampled structure, where the order in which the implementation iterates its maps can matter) and once by the reference well-formedness checker; "+
+	rule := fmt.Sprintf("A case is one construction sequence (Graph, Chain or Workflow front end) executed %d times on fresh eino objects (30 to 40 times: the families / base programs / sampled sequences with field-mapped pass-through nodes, with pass-through nodes between concretely typed and interface-typed neighbours, with edges between pass-through nodes that wait for a type, and every sampled structure - where the order in which the implementation iterates its maps can matter) and once by the reference well-formedness checker; "+
 		"EXHAUSTIVE sub-spaces (children that only enumerate): (1) every call sequence up to the stated length over each family alphabet after the family's prelude, ≤3 node keys: %s; "+
 		"(2) every call of the front end's full alphabet (graph %d, chain %d, workflow %d calls) inserted before / substituted for every position of each of %d well-formed base programs. "+
 		"(3) late operations on retained objects: %d well-formed scenarios (workflow with field mappings / static values / branch / nested graphs, graph with branches / nested graph, chain and workflow nodes, chain with parallel / branch / nested graphs), "+
 		"each compiled with up to 3 option sets (plain, interrupt-before, interrupt-after), then every pair (late operation, Compile variant) and (Compile variant, late operation)%s, where the late operations (%d in total) are "+
 		"every mutating method of every retained object (WorkflowNode handles incl. End(), Workflow, Graph, Chain, Parallel, ChainBranch, nested graphs) and every mutation of a retained argument (end-node maps incl. GetEndNode(), field-mapping slices, field paths, interrupt-node slices, option and callback slices). "+
-		"SAMPLED: %d cases in the remaining children: of every 10, 3 random longer call sequences (mutated base programs, free sequences of 6..14 calls), 1 random sequence of 4..8 late operations and "+
+		"SAMPLED: %d cases in the remaining children: of every 14, 2 sequences around a pass-through node (or two) between concretely typed producers and consumers declared with interface types (any, two method interfaces), the producer's type or a conflicting type, with branches whose condition reads such types, lowered in a random call / declaration order; "+
+		"1 sequence of pass-through nodes that are connected to each other before anything tells their type and are typed later by branches (with two, one or no target, conditions over string / int / any), typed successors or their predecessor; "+
+		"1 structure with a Compile history (END connected only after a first Compile, a bad option set first, a Compile in the middle of the construction, Compile twice, nested graphs compiled standalone first; Workflows with branches and static values); "+
+		"3 random longer call sequences (mutated base programs, free sequences of 6..14 calls), 1 random sequence of 4..8 late operations and "+
 		"6 random STRUCTURES (a typed skeleton of 2..8 nodes on any front end with keyed lambda / passthrough nodes, field-mapped Workflow inputs on and from passthrough nodes, branches, data-only inputs, control-only dependencies, "+
 		"graphs added as nodes up to two levels deep with their own compile options, at most one deliberate violation - a loop closed through an edge / branch / input / data-only input / dependency, an option set that is invalid for the front end, an uninferable passthrough, a mutation - "+
 		"lowered to calls in a random order and executed 30 times on fresh objects). "+
@@ -780,7 +1034,9 @@ func TestCheck(t *testing.T) {
 		"node bodies, branch conditions and state handlers are deterministic pure functions of their input (and the per-run state)",
 		"error-ness, error identity (errors.Is with the first error / ErrGraphCompiled) and panics are compared, never message texts",
 		"a failing Compile is not required to poison the builder (only Add* errors are sticky); chain and workflow builder calls have no result and are observed through Compile",
-		"WithGetStateEnable has no public constructor in the pinned version and is not exercised; nil node arguments, zero-target branches are not generated",
+		"WithGetStateEnable has no public constructor in the pinned version and is not exercised; nil node arguments are not generated",
+		"type mismatches are not among the ill-formed constructions the statement lists; the reference predicts them as eino defines them (a pass-through node has the type of the first typed neighbour it was connected to, in call order; a Workflow connects in declaration order) because it must predict the first failing call",
+		"Compile does not change what was built: a Compile that fails in the compile stage proper, a second Compile of an untouched builder and the standalone Compile of a graph that is added as a node afterwards are without influence on later outcomes (compared with the same calls without them, on fresh objects; not for chains, whose first Compile connects END)",
 		"every run of a compiled runnable is one Invoke and one Stream (chunks compared as a multiset) of the same input, incl. the nodes named by an interrupt; a difference counts only if it persists over 30 re-runs and an untouched control built by the same calls reproduces the old outcome 30 times",
 		"late operations: contents of values handed to eino as data (static values, node bodies, state) are the caller's and are not mutated; objects are not re-used in a second graph",
 		"runs whose result is not reproducible on the untouched first runnable are excluded from the before/after comparison (counted)",
@@ -877,7 +1133,27 @@ func TestCheck(t *testing.T) {
 			rep.Count("enumerated_sequences", u.count)
 			return
 		}
-		switch k := (idx - int64(len(myUnits))) % 10; {
+		switch k := (idx - int64(len(myUnits))) % 14; {
+		case k >= 10:
+			var s *Seq
+			switch k {
+			case 10, 11:
+				s = ifaceSeq(rng)
+			case 12:
+				s = waitSeq(rng)
+			default:
+				s = recompileSeq(rng)
+			}
+			c.checkSeq(s)
+			kind := strings.Split(s.Family, ":")[0]
+			rep.Count("sampled_"+kind+"_sequences", 1)
+			for _, t := range strings.Split(s.Family, ":")[1:] {
+				rep.Count(kind+"_with/"+t, 1)
+			}
+			if idx-int64(len(myUnits)) < 28 {
+				rep.Sample(s)
+			}
+			return
 		case k == 3:
 			ls := randomLateSeq(rng)
 			c.checkLate(ls)
@@ -931,6 +1207,24 @@ func TestCheck(t *testing.T) {
 		"max-steps-in-all-predecessor-mode", "trigger-mode-on-chain-or-workflow", "uninferred-passthrough", "no-exit-edge"} {
 		rep.Require("rule-in-nested-graph/"+r, 5)
 	}
+	// the sub-workloads of the second coverage round and what they are there for
+	rep.Require("sampled_iface_sequences", 500)
+	rep.Require("sampled_wait_sequences", 200)
+	rep.Require("sampled_recompile_sequences", 200)
+	for _, t := range []string{"iface_with/conflicting-consumer", "iface_with/branch", "wait_with/zero-target-branch", "wait_with/branch",
+		"recompile_with/end-connected-after-a-failed-compile", "recompile_with/bad-options-before", "recompile_with/compiled-twice", "recompile_with/early-compile",
+		"recompile_with/static-value", "recompile_with/branch", "structure_with/static-value", "structure_with/unknown-interrupt-node", "structure_with/interrupt-option"} {
+		rep.Require(t, 10)
+	}
+	rep.Require("compile_history_comparisons/after-failed-compile", 200)
+	rep.Require("compile_history_comparisons/nested-graph-compiled-standalone-first", 50)
+	rep.Require("compile_history_runnables_compared", 50)
+	rep.Require("recompiled_unchanged_builder_same_options", 500)
+	rep.Require("late_compile_of_untouched_builders_succeeded", 200)
+	for _, r := range []string{"zero-target-branch", "unknown-interrupt-node", "static-value-invalid"} {
+		rep.Require("rule/"+r, 10)
+	}
+	rep.Require("rule-in-nested-graph/unknown-interrupt-node", 5)
 	for _, r := range []string{"reserved-key", "duplicate-key", "unknown-node", "duplicate-edge", "edge-from-end", "edge-to-start", "no-entry-edge", "no-exit-edge",
 		"uninferred-passthrough", "cycle-in-all-predecessor-mode", "single-target-branch", "state-handler-without-state", "handler-state-type", "handler-value-type",
 		"passthrough-handler-not-any", "node-key-option-outside-chain", "type-mismatch", "trigger-mode-on-chain-or-workflow", "max-steps-in-all-predecessor-mode",
